@@ -3,24 +3,10 @@
    corollaries, and non-vacuity examples. *)
 From Coq Require Import ZArith List Bool Lia Arith.
 From Common Require Import Res.
-From Routing Require Import Model Obs Proofs_Tables Proofs_Group Proofs_Merge Proofs_Library Proofs_Ops Proofs_Routing.
+From Routing Require Import Model Scheme Obs Spec Obs Proofs_Tables Proofs_Group Proofs_Merge Proofs_Library Proofs_Ops Proofs_Routing.
 Import ListNotations.
 Open Scope Z_scope.
 
-(* ------------------------------------------------------------------ T5a at full strength *)
-
-(* no provider and no mixer ever raises anything but an ordinary exception *)
-Definition ordinary_population (P : list backend) (mx : option mixer) : Prop :=
-  (forall b m a k, ans P b m a = RRaise k -> ordinary k = true) /\
-  (forall f m a k, mx = Some f -> f m a = RRaise k -> ordinary k = true).
-
-(* the property as stated: an ordinary fault never makes a core request raise (only the
-   caller's own invalid argument does, before any provider is touched) *)
-Definition faults_never_raise_full : Prop :=
-  forall T P mx o log k,
-    ordinary_population P mx -> run_op T P mx o = (log, Raise k) -> k = KValidation /\ log = [].
-
-Definition flaky (k : kind) : backend := mkB [1] true true true true true (fun _ _ => RRaise k).
 
 Lemma faults_never_raise_refuted_search : ~ faults_never_raise_full.
 Proof.
@@ -46,9 +32,6 @@ Proof.
   specialize (H _ KAssertion O eq_refl). destruct H as [H _]. discriminate.
 Qed.
 
-(* the two legacy re-raises are the only exceptions *)
-Definition no_legacy_reraise (P : list backend) : Prop :=
-  forall b a, ans P b MSearch a <> RRaise KLookup /\ ans P b PSave a <> RRaise KAssertion.
 
 Theorem faults_never_raise_partial T P mx o log k :
   ordinary_population P mx -> no_legacy_reraise P ->
@@ -64,11 +47,6 @@ Proof.
   - destruct (Hleg b a) as [_ H2]. exact (H2 Ha).
 Qed.
 
-(* non-vacuity: a population in which every provider method of backend 0 raises an ordinary
-   error satisfies the hypotheses, and requests still succeed with backend 1's answers *)
-Definition good1 : backend :=
-  mkB [2] true true true true true
-      (script [(MLookupMany, RMap [((2, 7), MList [EObj CTrack 2001 true])]); (MSearch, RVal CSearch 2002)]).
 
 Example faults_partial_nonvacuous :
   ordinary_population [flaky KException; good1] None /\ no_legacy_reraise [flaky KException; good1] /\
@@ -136,11 +114,6 @@ Proof.
   - now apply mk_backends_terminates in E.
 Qed.
 
-(* ------------------------------------------------------------------ the code before the fix *)
-
-Definition trk (i : Z) : entry := EObj CTrack i true.
-Definition img (i : Z) : entry := EObj CImage i true.
-Definition lib (ss : list scheme) (l : list (meth * resp)) : backend := mkB ss true true true true true (script l).
 
 (* a key nobody asked for appears in the result *)
 Lemma lookup_old_foreign_key_refuted :
@@ -151,11 +124,6 @@ Proof.
   split; [cbn; auto|]. intros [H|[]]. discriminate.
 Qed.
 
-Definition pA : backend := lib [1] [(MLookupMany, RMap [((1, 1), MList [trk 1])]); (MGetImages, RMap [((1, 1), MList [img 1])])].
-Definition pB : backend := lib [2] [(MLookupMany, RMap [((2, 1), MList [trk 2001])]); (MGetImages, RMap [((2, 1), MList [img 2001])])].
-Definition pB' : backend :=
-  lib [2] [(MLookupMany, RMap [((2, 1), MList [trk 2001]); ((1, 1), MList [trk 2002])]);
-           (MGetImages, RMap [((2, 1), MList [img 2001]); ((1, 1), MList [img 2002])])].
 
 Lemma pAB_differ : differ_only_at 1 [pA; pB] [pA; pB'].
 Proof.
